@@ -6,6 +6,7 @@ TRUSTED_BASE = [
     "translator /verif/translate/translate.py (Rust/TS source -> Generated/Tables.lean), cross-checked against the compiled crate by `zkh const`",
     "correspondence harness /verif/harness (zkh) + orchestrator diff: differential, bounds what the tie between model and code has seen",
     "Lean compiler/runtime for the zkmodel executable (used to run the model only; no theorem depends on it)",
+    "verif-hooks cargo feature of solana-zk-sdk (add-only instrumentation in /repo, on in the harness build only): records the label and value of every Fiat-Shamir challenge drawn through TranscriptProtocol::challenge_scalar; the orchestrator compares them with the model's",
 ]
 
 
@@ -50,11 +51,12 @@ def consts_check(ctx):
     ts_pt = {n: v for n, v in t["ts_proof_types"]}
     ts_sz = {order.get(n): v for n, v in t["ts_context_sizes"]}
     names = {v: n for n, v in t["rust_proof_types"]}
-    for i, total, tb in c.get("encoded_states", []):
+    for i, total, tb, memsz, back in c.get("encoded_states", []):
         if i in ts_sz:
-            cmp(f"encoded_state:{names.get(i)}", [ts_sz[i], ts_pt.get(names.get(i))], [total, tb])
+            # encoded length, type byte, in-memory size of the typed state, and read-back of the encoded bytes
+            cmp(f"encoded_state:{names.get(i)}", [ts_sz[i], ts_pt.get(names.get(i)), ts_sz[i], 1], [total, tb, memsz, back])
         else:
-            cmp(f"encoded_state:{names.get(i)}", ts_pt.get(names.get(i)), tb)
+            cmp(f"encoded_state:{names.get(i)}", [ts_pt.get(names.get(i)), 1], [tb, back])
     if not c.get("encoded") or not c.get("encoded_states"):
         out.append({"kind": "const", "line": "zkh const encoded", "impl": None, "model": None, "note": "encoded section missing"})
     return out, rows
